@@ -107,6 +107,7 @@ func checkC02(p *Program, r *Report) {
 
 	checkRangeRouting(p, r)
 	checkVLenWidth(p, r, "C02.vlen-width")
+	checkLeafDecoder(p, r, "C02.leaf-decoder")
 	checkKeepMask(p, r)
 	checkEncodeEach(p, r)
 	checkEncodeIndependent(p, r, "C02.encode-independent")
